@@ -275,6 +275,7 @@ fn forge_tags(v5: bool) -> &'static [&'static str] {
             "forge-plain-time",
             "forge-reencrypt-own-keys",
             "forge-v5-plain-chunk",
+            "forge-offpath-blind-guess",
         ]
     } else {
         &[
@@ -285,6 +286,7 @@ fn forge_tags(v5: bool) -> &'static [&'static str] {
             "forge-plain-time",
             "forge-reencrypt-own-keys",
             "forge-v4-kiss-unknown",
+            "forge-offpath-blind-guess",
         ]
     }
 }
@@ -346,6 +348,26 @@ fn forge(tag: &'static str, req: &[u8], adv_cipher: &dyn Cipher, now_fixed: u64,
         }
         "forge-plain-time" => {
             tail_plain_cookies = true;
+        }
+        "forge-offpath-blind-guess" => {
+            // an off-path attacker cannot see the request: guessed identifiers, kiss or time answer
+            h.f24 = junk.next_u64();
+            if junk.next_u64() % 2 == 0 {
+                h.stratum = 0;
+                if v5 {
+                    h.poll = 127;
+                    h.word3 = [0, 0, 0, 0b100];
+                } else {
+                    h.word3 = *b"DENY";
+                }
+            }
+            let mut out = h.bytes();
+            let guess: Vec<u8> = (0..32).map(|_| junk.next_u64() as u8).collect();
+            out.extend(wire::ef(wire::EF_UID, &guess, 28, v5));
+            if v5 {
+                out.extend(wire::ef(wire::EF_DRAFT_ID, wire::DRAFT, 16, true));
+            }
+            return out;
         }
         "forge-v5-plain-chunk" => {
             chunk = true;
